@@ -17,7 +17,7 @@ import (
 // with no host.
 //
 //verif:contract ~/pkg/util/http.CanonicalHost
-//verif:props C06
+//verif:props C06 C02
 func verif_CanonicalHost(host string) {
 	lower := strings.ToLower(host)
 	out, err := CanonicalHost(host)
